@@ -76,23 +76,35 @@ theorem ack_pending_preserved {F} (A : FArith F) (delay : F) (s : Space F) (pn :
     timer when asked": a `_write_application` call at any time `now ≥ ack_at`
     (side conditions: handshake complete, 1-RTT send keys valid, start_packet and
     start_frame(ACK) not refused by the datagram budget) writes an ACK frame
-    whatever the pacer says, clears the timer, and — when every range fits — the
-    frame covers the packet.  `ack_timer_le` shows get_timer() asks for a call no
+    whatever the pacer says, clears the timer, and the frame covers the packet
+    when every range fits OR — whatever `max_size` cut off — when the packet still
+    carries the highest number received.  `ack_timer_le` shows get_timer() asks for a call no
     later than `ack_at`; `ack_at ≤ arrival + ack_delay` is `ack_deadline_armed`
     (aioquic's `_ack_delay` is 1 ms, the advertised max_ack_delay 25 ms). -/
 theorem ack_timely {F} (A : FArith F) (ho : OrderOk A) (s : Space F) (pn : Nat) (a now : F) (pacerWait : Bool)
     (de : Nat) (ms : Option Int) (hi : SInv s) (hp : Pending s pn a) (hdue : A.le a now = true) :
     ∃ s' f, txApplication A s now true true pacerWait true true de ms = .ok (s', .ack f) ∧ s'.ackAt = none ∧
-      (f.ranges = s.ackQueue.length → ∃ lh ∈ wireRanges f.values, lh.1 ≤ (pn : Int) ∧ (pn : Int) ≤ lh.2) := by
+      ((f.ranges = s.ackQueue.length ∨ (pn : Int) = s.largestReceived) →
+        ∃ lh ∈ wireRanges f.values, lh.1 ≤ (pn : Int) ∧ (pn : Int) ≤ lh.2) := by
   obtain ⟨s', f, hw⟩ := writeAck_ok hi (by simp [hp.armed]) (mem_ne_nil hp.queued) de ms
   refine ⟨s', f, ?_, (writeAck_inv hi hw).2.1, ?_⟩
   · have hpaced : paced A s now = false := by simp [paced, hp.armed, ho.le_not_lt _ _ hdue]
     have hd : ackDue A s now = true := by simp [ackDue, hp.armed, hdue]
     simp [txApplication, hpaced, hd, hw]
-  · intro hfit
+  · intro hor
     obtain ⟨_, _, _, _, vals, n, hpf, hv, hn⟩ := writeAck_inv hi hw
     rw [hv]
-    exact pushAckFrame_complete _ _ _ _ _ hpf (by rw [← hn]; exact hfit) pn hp.queued
+    rcases hor with hfit | hlargest
+    · exact pushAckFrame_complete _ _ _ _ _ hpf (by rw [← hn]; exact hfit) pn hp.queued
+    · exact pushAckFrame_covers_largest _ _ _ _ _ hpf hi.wf pn hp.queued
+        (fun x hx => by have := hi.le_largest x hx; omega)
+
+/-- the range holding the largest queued packet number survives every `max_size`
+    truncation of the ACK frame (RFC 9000 13.2.3 only lets the OLDEST ranges go) -/
+theorem ack_largest_always_written (rs : List Rg) (de : Nat) (ms : Option Int) (vals : List Nat) (n : Nat)
+    (h : pushAckFrame rs de ms = .ok (vals, n)) (hwf : WF rs) (pn : Nat) (hm : mem pn rs)
+    (hmax : ∀ x, mem x rs → x ≤ pn) : ∃ lh ∈ wireRanges vals, lh.1 ≤ (pn : Int) ∧ (pn : Int) ≤ lh.2 :=
+  pushAckFrame_covers_largest rs de ms vals n h hwf pn hm hmax
 
 /-- the ack part of get_timer(): the time returned is not later than any armed
     ack deadline -/
@@ -158,5 +170,6 @@ end AQ.Props.C12
 #print axioms AQ.Props.C12.ack_deadline_armed
 #print axioms AQ.Props.C12.ack_pending_preserved
 #print axioms AQ.Props.C12.ack_timely
+#print axioms AQ.Props.C12.ack_largest_always_written
 #print axioms AQ.Props.C12.ack_timer_le
 #print axioms AQ.Props.C12.ack_next_tx
